@@ -20,6 +20,7 @@ func runRound21(c *Ctx, spec *PropSpec) {
 		http1ClientSkipsInterimResponses(c)
 	case "C08":
 		h2HeadersOnHalfClosedStreamRefused(c, "C08.B17")
+		tarsRecursiveReaderBehindDepthCheck(c)
 	case "C09":
 		pingPongCountsUnderItsLock(c, "C09.R18")
 	case "C10":
@@ -84,8 +85,12 @@ func h2HeadersOnHalfClosedStreamRefused(c *Ctx, rule string) {
 			if !isB || (b.Op != token.EQL && b.Op != token.NEQ) {
 				continue
 			}
-			_, f, _, isF := loadedField(b.X)
-			k, isK := constInt(b.Y)
+			bx, by := b.X, b.Y
+			if _, isKx := constInt(bx); isKx {
+				bx, by = by, bx
+			}
+			_, f, _, isF := loadedField(bx)
+			k, isK := constInt(by)
 			if isF && f == "state" && isK && k == half && (b.Op == token.EQL) != g.True {
 				// the other edge only leaves with an error
 				other := g.If.Block().Succs[0]
@@ -314,8 +319,22 @@ func nonPositiveRequestTimeoutIgnored(c *Ctx) {
 			if !isB {
 				continue
 			}
-			k, isK := constInt(b.Y)
-			if stripConv(b.X) == parsed && isK && k == 0 && ((b.Op == token.GTR && g.True) || (b.Op == token.LEQ && !g.True)) {
+			x, y, op := b.X, b.Y, b.Op
+			if _, isKx := constInt(x); isKx { // 0 < v is v > 0
+				x, y = y, x
+				switch op {
+				case token.LSS:
+					op = token.GTR
+				case token.GEQ:
+					op = token.LEQ
+				case token.GTR:
+					op = token.LSS
+				case token.LEQ:
+					op = token.GEQ
+				}
+			}
+			k, isK := constInt(y)
+			if stripConv(x) == parsed && isK && k == 0 && ((op == token.GTR && g.True) || (op == token.LEQ && !g.True)) {
 				ok = true
 			}
 		}
@@ -403,5 +422,110 @@ func pingPongCountsUnderItsLock(c *Ctx, rule string) {
 	})
 	if n == 0 {
 		c.Unresolved(rule, "totalClientCount.Inc() in poolPingPong.GetActiveClient")
+	}
+}
+
+// ---------------------------------------------------------------------------------------------------------------------
+// C08.B18 (S366, recorded as a known finding): a reader that recurses on the structure of peer input is reached only
+// behind a depth check. TarsGo's codec.Reader skips unknown fields by mutual recursion (skipField <-> SkipToStructEnd,
+// one level per nested STRUCT_BEGIN / list / map head): about 10 MB of 0x2A bytes recurse ten million deep and end in
+// `fatal error: stack overflow`, which no recover() catches - the whole process exits, every connection with it. Clause:
+// for every function of the tars codec from which a recursive function of TarsGo's codec package is reachable, the
+// decode entry point (tarsProtocol.Decode) calls, on every path in front of the first such function, a validator: a
+// function of the tars package that takes the package bytes, can return an error, and reaches no recursive function.
+func tarsRecursiveReaderBehindDepthCheck(c *Ctx) {
+	const rule = "C08.B18"
+	c.Rule(rule, "tars: TarsGo's recursive field skipping is reached only behind a non-recursive validation of the package (nesting depth bounded)", 1)
+	pkg := "pkg/protocol/xprotocol/tars"
+	dec := c.M(pkg, "tarsProtocol", "Decode")
+	if dec == nil {
+		c.Unresolved(rule, "tarsProtocol.Decode")
+		return
+	}
+	// recursive functions of the TarsGo codec package: on a cycle of static calls
+	const tg = "github.com/TarsCloud/TarsGo/tars/protocol/codec"
+	var cfns []*ssa.Function
+	for fn := range c.all {
+		if fn.Pkg != nil && fn.Pkg.Pkg.Path() == tg && len(fn.Blocks) > 0 {
+			cfns = append(cfns, fn)
+		}
+	}
+	if len(cfns) == 0 {
+		c.Unresolved(rule, tg+" is not loaded with function bodies")
+		return
+	}
+	callees := func(f *ssa.Function) []*ssa.Function {
+		var out []*ssa.Function
+		forEachInstr(f, true, func(_ *ssa.Function, in ssa.Instruction) {
+			if ci, ok := in.(ssa.CallInstruction); ok {
+				if cal := ci.Common().StaticCallee(); cal != nil && len(cal.Blocks) > 0 {
+					out = append(out, cal)
+				}
+			}
+		})
+		return out
+	}
+	recursive := map[*ssa.Function]bool{}
+	for _, f := range cfns {
+		seen := map[*ssa.Function]bool{}
+		work := callees(f)
+		for len(work) > 0 {
+			x := work[len(work)-1]
+			work = work[:len(work)-1]
+			if x == f {
+				recursive[f] = true
+				break
+			}
+			if seen[x] || x.Pkg == nil || x.Pkg.Pkg.Path() != tg {
+				continue
+			}
+			seen[x] = true
+			work = append(work, callees(x)...)
+		}
+	}
+	if len(recursive) == 0 {
+		c.Pass(rule, funcKey(dec)+":recursive-reader-behind-depth-check", dec.Pos(), "no function of "+tg+" is recursive")
+		return
+	}
+	reaches := func(f *ssa.Function) bool {
+		for x := range staticReach([]*ssa.Function{f}, "") {
+			if recursive[x] {
+				return true
+			}
+		}
+		return false
+	}
+	// the first calls of Decode from which a recursive reader is reachable
+	n := 0
+	ord := ordCounter{}
+	for _, cs := range callsIn(dec, false, func(cc *ssa.CallCommon) bool {
+		cal := cc.StaticCallee()
+		return cal != nil && len(cal.Blocks) > 0 && reaches(cal)
+	}) {
+		n++
+		validated := false
+		for _, vs := range callsIn(dec, false, func(cc *ssa.CallCommon) bool {
+			cal := cc.StaticCallee()
+			if cal == nil || cal.Pkg != dec.Pkg || len(cal.Blocks) == 0 || reaches(cal) {
+				return false
+			}
+			takesBytes := false
+			for _, a := range cc.Args {
+				if isByteSlice(a.Type()) || isIoBuffer(a.Type()) {
+					takesBytes = true
+				}
+			}
+			res := cal.Signature.Results()
+			return takesBytes && res.Len() > 0 && strings.HasSuffix(res.At(res.Len()-1).Type().String(), "error")
+		}) {
+			if instrDominates(vs.Instr, cs.Instr) {
+				validated = true
+			}
+		}
+		c.Check(rule, ord.next(dec, "recursive-reader-behind-depth-check"), cs.Instr.Pos(), validated, "a non-recursive validator of the tars package runs first",
+			fmt.Sprintf("tarsProtocol.Decode hands peer bytes to %s, from which TarsGo's recursive field skipping (%d mutually recursive functions of %s) is reachable, with no bounded pre-scan in front: a package of nested STRUCT_BEGIN heads recurses one level per byte and ends in a fatal stack overflow that no recover() catches - the process exits and every connection goes with it", cs.Instr.Common().StaticCallee().Name(), len(recursive), tg))
+	}
+	if n == 0 {
+		c.Unresolved(rule, "no call of tarsProtocol.Decode reaches the TarsGo reader")
 	}
 }
